@@ -279,7 +279,7 @@ pub (crate) fn bid128_from_string(str: &str, rnd_mode: RoundingMode, pfpsf: &mut
         return res;
     }
     // if +sNaN, +SNaN, -sNaN, or -SNaN
-    if range.get(0..4).is_some_and(|r| r.eq_ignore_ascii_case("snan")) {
+    if (c == Some('+') || c == Some('-')) && range.get(0..4).is_some_and(|r| r.eq_ignore_ascii_case("snan")) {
         res.w[0] = 0;
         res.w[1] = if c == Some('-') {
             0xfe00000000000000u64
